@@ -1,5 +1,7 @@
 import Driver.StackDrv
 import Driver.ExecDrv
+import Driver.BufDrv
+import Driver.RunDrv
 open Pushr
 
 def handleLine (line : String) : String :=
@@ -7,6 +9,8 @@ def handleLine (line : String) : String :=
   | some [.list (.atom kind :: rest)] =>
     match kind with
     | "stackop" => StackDrv.handle rest
+    | "run" => RunDrv.handle rest
+    | "bufseq" => BufDrv.handle rest
     | "exec" => ExecDrv.handleExec rest
     | "step" => ExecDrv.handleStep rest
     | "scope" => (match rest with
